@@ -20,7 +20,9 @@ def translate():
 # ---------------------------------------------------------------- spectra
 def spectra(rng, thorough):
     out = []
-    sizes = [1, 2, 3, 4, 5, 7, 12, 20, 33] + ([60, 100, 200] if thorough else [48])
+    # the model is evaluated inside Coq on exact rationals: a 200 x 200 eigenvector literal costs a coqc process > 10 GB and
+    # > 10 min (measured), so the thorough tier stops at 96 and spends its budget on more spectra per size instead
+    sizes = [1, 2, 3, 4, 5, 7, 12, 20, 33] + ([48, 64, 96] if thorough else [48])
     for n in sizes:
         out.append(("slow-int", [float(i + 1) for i in range(n)]))
         out.append(("fast-dyadic", [2.0 ** (-(n - 1 - i)) for i in range(n)]))
@@ -228,7 +230,7 @@ def run(ctx):
     # 4. correspondence: the generated model on the same inputs, inside Coq
     if gen is not None and cases:
         try:
-            bad = ctx.run_cases("c10", "PyVal EigCount", cases)
+            bad = ctx.run_cases("c10", "PyVal EigCount", cases, shard=120 if ctx.thorough else 250)
         except Broken as b:
             ctx.broken.append(b)
             bad = {}
